@@ -77,13 +77,16 @@ def check(prog, run):
                        "type kind %s: in __TypeKind=%s, produced by _resolve_type_kind=%s, in the specification=%s" % (k, k in kind_names, k in image, k in SPEC_TYPE_KINDS))
     # kind resolver dispatch order: subclasses before base (each class tested once)
     tested = [nm for n in own_nodes(rk.node) if isinstance(n, ast.If) for names, _ in shapes.class_tests(n.test, rk.params[0]) for nm in names]
+    # path form: what the resolver returns when its argument is exactly a C (independent of elif-vs-early-return and test order)
+    from .. import dispatch
+    hier = dispatch.Hierarchy(prog)
     pairs = {}
-    for n in own_nodes(rk.node):
-        if isinstance(n, ast.If):
-            for names, _ in shapes.class_tests(n.test, rk.params[0]):
-                for st in n.body:
-                    if isinstance(st, ast.Return) and isinstance(st.value, ast.Constant):
-                        pairs[names[0]] = st.value.value
+    for c in ("ScalarType", "ObjectType", "InterfaceType", "UnionType", "EnumType", "InputObjectType", "ListType", "NonNullType"):
+        got = set()
+        for kind, st, env in dispatch.executions(hier, rk, rk.params[0], c):
+            got.add(st.value.value if kind == "return" and isinstance(st.value, ast.Constant) else ("<%s>" % kind))
+        if len(got) == 1:
+            pairs[c] = got.pop()
     want = {"ScalarType": "SCALAR", "ObjectType": "OBJECT", "InterfaceType": "INTERFACE", "UnionType": "UNION", "EnumType": "ENUM",
             "InputObjectType": "INPUT_OBJECT", "ListType": "LIST", "NonNullType": "NON_NULL"}
     for c, k in want.items():
